@@ -6,6 +6,7 @@ import (
 	"encoding/gob"
 	"fmt"
 	"runtime/metrics"
+	"slices"
 	"sort"
 	"sync"
 	"testing"
@@ -23,8 +24,10 @@ var fuzzTools = []string{"B", "a", "a0", "aa", "b", "c", "z"}
 const fuzzPageSize = 2
 
 type fuzzEnv struct {
-	cs     *mcp.ClientSession
-	issued []string
+	cs          *mcp.ClientSession
+	issued      []string
+	order       []string // the fixed tool set in the order the server lists it
+	formatKnown bool     // see checkHostile
 }
 
 var (
@@ -44,20 +47,27 @@ func fuzzSetup() (*fuzzEnv, error) {
 			fuzzErr = err
 			return
 		}
-		e := &fuzzEnv{cs: cs}
+		e := &fuzzEnv{cs: cs, formatKnown: true}
 		var c *string
-		for i := 0; i < len(fuzzTools); i++ {
-			_, next, err := fetch(cs, kTool, c)
+		for i := 0; i < 4*len(fuzzTools); i++ {
+			items, next, err := fetch(cs, kTool, c)
 			if err != nil {
 				fuzzErr = fmt.Errorf("paging the fixed tool set: %w", err)
 				return
 			}
+			for _, it := range items {
+				e.order = append(e.order, it.id)
+			}
 			if next == "" {
 				break
+			}
+			if bad, uid := classify(next); bad || len(items) == 0 || uid != items[len(items)-1].id {
+				e.formatKnown = false
 			}
 			e.issued = append(e.issued, next)
 			c = &next
 		}
+		e.formatKnown = e.formatKnown && len(e.issued) > 0
 		fuzzE = e
 	})
 	return fuzzE, fuzzErr
@@ -112,7 +122,7 @@ func checkFuzzCursor(e *fuzzEnv, cursor string) (res vt.Result) {
 	if d := a1 - a0; d > 256<<20 {
 		res.Failf("%s: the process allocated %d MiB while serving a %d-byte cursor", what, d>>20, len(cursor))
 	}
-	checkHostile(&res, what, cursor, items, next, err, func() bool {
+	checkHostile(&res, what, cursor, items, next, err, e.formatKnown, func() bool {
 		ok := true
 		var ids []string
 		for _, it := range items {
@@ -126,9 +136,10 @@ func checkFuzzCursor(e *fuzzEnv, cursor string) (res vt.Result) {
 			res.Failf("%s: page %q exceeds the page size %d", what, ids, fuzzPageSize)
 			ok = false
 		}
+		// in the server's own listing order (one stable order; not necessarily ascending byte order)
 		for j := 1; j < len(ids); j++ {
-			if ids[j-1] >= ids[j] {
-				res.Failf("%s: page %q is not strictly ascending", what, ids)
+			if slices.Index(e.order, ids[j-1]) >= slices.Index(e.order, ids[j]) {
+				res.Failf("%s: page %q is not in the order of the full listing %q", what, ids, e.order)
 				ok = false
 			}
 		}
